@@ -1406,12 +1406,15 @@ def _account_extension(c, o1, o2, o3):
     f["compared_with_extension"] += 1
     if "prog" not in c:
         o1, o2, o3 = (_strip_index(c["in"], o) for o in (o1, o2, o3))
+    ub = json.dumps(o2).find("CyUndefinedBehaviour") >= 0 or ("prog" not in c and json.dumps(o2).find("[1, 8]") >= 0)
     if isinstance(o3, list) and o3 and o3[0] == "CRASH":
-        f["extension_crashes"].append({"case": c.get("prog", c["in"]), "exit": o3[1], "compiled_branch_source": o2 if "prog" not in c else None})
+        f["extension_crashes"].append({"case": c.get("prog", c["in"]), "exit_status": o3[1],
+                                       "compiled_branch_source_reading": "undefined behaviour reached" if ub else "no undefined behaviour predicted"})
         f["extension_crashes"] = f["extension_crashes"][:5]
-        if json.dumps(o2).find("CyUndefinedBehaviour") >= 0 or json.dumps(o2).find("[1, 8]") >= 0:
-            f["extension_confirms_divergence"] += 1
-            return
+    if ub:
+        # the compiled branch reads outside an object: whatever the extension did (crash, garbage) is covered
+        f["extension_confirms_divergence"] += 1
+        return
     if o3 == o2:
         f["extension_agrees_with_compiled_branch_source"] += 1
         if o2 != o1:
@@ -1538,9 +1541,7 @@ def _gen_os(rng):
         )
         e = rng.choice(E)
         if k in ("add", "remove", "discard", "in"):
-            steps.append([k if k != "add" else "add", e] if k != "add" else ["add", e])
-            if k == "add":
-                steps[-1] = ["__class__.add" if False else "add", e]
+            steps.append([k, e])
         elif k == "insert":
             steps.append(["insert", rng.randint(-7, 7), e])
         elif k == "getitem":
@@ -1552,7 +1553,7 @@ def _gen_os(rng):
         elif k in ("symmetric_difference", "symmetric_difference_update", "issubset"):
             steps.append([k, it()])
         elif k == "plus":
-            steps.append(["add", it()]) if False else steps.append(["__add__", it()])
+            steps.append(["__add__", it()])
         else:
             steps.append([k, rng.choice([{"S": [rng.choice(E) for _ in range(rng.randint(0, 4))]},
                                          {"OS": [rng.choice(E) for _ in range(rng.randint(0, 4))]}, it()])])
@@ -1718,7 +1719,7 @@ def _gen_row(rng):
                 steps.append(["mapping", rng.choice(["keys", "values", "items", "__len__"])])
         elif k == "call":
             if ini.get("cls") == "Row":
-                steps.append([rng.choice(["_asdict", "count", "index"])] + ([] if steps and False else []))
+                steps.append([rng.choice(["_asdict", "count", "index"])])
                 if steps[-1][0] != "_asdict":
                     steps[-1].append(rng.choice([1, "x", 9]))
         elif k == "pickle":
@@ -1778,7 +1779,7 @@ def _gen_res(rng, mismatch=False):
         elif k == "partitions":
             steps.append(["partitions"] + ([rng.choice([1, 2])] if rng.random() < 0.8 or not any(s[0] == "yield_per" for s in steps) else []))
         elif k == "keys_list":
-            steps.append(["_row_getter.__class__"]) if False else steps.append(["keys"])
+            steps.append(["keys"])
         elif k == "_raw_all_tuples":
             if not any(s[0] in ("unique", "scalars", "mappings") for s in steps):
                 steps.append([k])
@@ -1902,7 +1903,8 @@ def _edge_cases():
     # rows whose length differs from the number of processors, after the first row
     add("res", {"keys": ["a", "b"], "procs": ["none", "to_s"], "rows": [{"T": [1, 2]}, {"T": [3, 4, 5]}]}, [["all"]])
     add("res", {"keys": ["a", "b"], "procs": ["none", "to_s"], "rows": [{"T": [1, 2, 3]}, {"T": [3, 4]}]}, [["_raw_all_tuples"]])
-    add("res", {"keys": ["a", "b"], "procs": ["to_s", "none"], "rows": [{"T": [1, 2]}, {"T": [3]}]}, [["all"]], no_so=True)
+    # this one IS sent to the extension: it reads past the end of the 1-tuple (boundscheck(False)) and usually dies
+    add("res", {"keys": ["a", "b"], "procs": ["to_s", "none"], "rows": [{"T": [1, 2]}, {"T": [3]}]}, [["all"]])
     add("res", {"keys": ["a", "b"], "procs": ["none", "to_s"], "rows": [{"T": [1]}]}, [["_raw_all_tuples"]], no_so=True)
     return cs
 
@@ -1921,7 +1923,6 @@ def gen_cases(rng, tier):
     for _ in range(n // 4):
         serial += 1
         fam, init, steps = _gen_res(rng, mismatch=True)
-        short = False
         cases.append(_surface(serial, fam, init, steps, no_so=True))
         cases[-1]["kind"] = "s-res-rowlen"
     return cases
